@@ -113,6 +113,37 @@ func (s *c14Srv) deliver(pkt []byte) (handled, invalid int, replies [][]byte, ok
 			return 0, 0, nil, false
 		}
 		defer cl.Close()
+		// the frame reaches the server in segments: whole, length prefix split, octet by octet, ...
+		if svs := s.ln.ServerConns(); len(svs) > 0 {
+			n := 2 + len(pkt)
+			var plan []int
+			switch s.nclient % 6 {
+			case 1:
+				plan = []int{1, n - 1}
+			case 2:
+				plan = []int{2, n - 2}
+			case 3:
+				plan = []int{3, n - 3}
+			case 4:
+				plan = make([]int, n)
+				for i := range plan {
+					plan[i] = 1
+				}
+			case 5:
+				plan = []int{1, 1, n/2 + 1, n}
+			}
+			var pos []int
+			for _, x := range plan {
+				if x > 0 {
+					pos = append(pos, x)
+				}
+			}
+			plan = pos
+			if plan != nil {
+				svs[len(svs)-1].SetReadPlan(plan)
+				s.w.Count("segmented_stream_deliveries", 1)
+			}
+		}
 		cl.Write(frame(pkt))
 	}
 	deadline := time.Now().Add(c13Watch)
@@ -337,6 +368,123 @@ func c14Admission(w *core.W, j int) {
 			pkt = pkt[:r.IntN(min(len(pkt), 13)+1)]
 		}
 		c14Judge(w, s, pkt, nil, "hostile")
+	}
+	// (4) several messages pipelined on one stream connection, delivered in arbitrary segments:
+	// every accepted query is handled exactly once and answered, every other one gets its policy outcome
+	if kind == "tcp" {
+		for round := 0; round < 6; round++ {
+			c14Pipeline(w, s, r, 2+r.IntN(7))
+		}
+	}
+}
+
+// c14Pipeline writes k framed messages (queries that pass the policy, interleaved with ones the policy
+// answers itself or ignores) onto one connection in a single write and compares the outcome per ID.
+func c14Pipeline(w *core.W, s *c14Srv, r interface{ IntN(int) int }, k int) {
+	type exp struct {
+		id      uint16
+		handled bool // reaches the handler (reply rcode 0 with the handler's TXT)
+		rcode   int  // otherwise: -1 = no reply
+	}
+	var exps []exp
+	var stream []byte
+	for i := 0; i < k; i++ {
+		id := uint16(0x4000 + s.nclient*64 + i)
+		b := make([]byte, 12)
+		binary.BigEndian.PutUint16(b, id)
+		e := exp{id: id, handled: true}
+		switch r.IntN(5) {
+		case 0: // a response: ignored
+			b[2] = 0x80
+			e = exp{id: id, rcode: -1}
+		case 1: // unsupported opcode 3: NOTIMP
+			b[2] = 3 << 3
+			e = exp{id: id, rcode: dns.RcodeNotImplemented}
+		case 2: // two questions: FORMERR
+			binary.BigEndian.PutUint16(b[4:], 2)
+			b = append(b, 1, 'a', 0, 0, 1, 0, 1, 1, 'b', 0, 0, 1, 0, 1)
+			e = exp{id: id, rcode: dns.RcodeFormatError}
+		}
+		if e.handled {
+			binary.BigEndian.PutUint16(b[4:], 1)
+			b = append(b, byte(1+i), 'q', 'q', 'q', 'q', 'q', 'q', 'q', 'q', 'q')
+			b = b[:12+1+(1+i)]
+			b = append(b, 0, 0, 1, 0, 1)
+		}
+		exps = append(exps, e)
+		stream = append(stream, frame(b)...)
+	}
+	h0 := s.handled.Load()
+	x0 := s.ctl.Hits()["serveDNS.exit"]
+	cl, err := s.ln.Dial()
+	if err != nil {
+		return
+	}
+	defer cl.Close()
+	s.nclient++
+	if svs := s.ln.ServerConns(); len(svs) > 0 && r.IntN(3) > 0 {
+		var plan []int
+		left := len(stream)
+		for left > 0 {
+			c := 1 + r.IntN(left)
+			if r.IntN(2) == 0 && left > 4 {
+				c = 1 + r.IntN(4)
+			}
+			plan = append(plan, c)
+			left -= c
+		}
+		svs[len(svs)-1].SetReadPlan(plan)
+	}
+	cl.Write(stream)
+	w.Eval(1)
+	w.Count("pipelines", 1)
+	w.Count("pipelined_messages", k)
+	deadline := time.Now().Add(c13Watch)
+	for s.ctl.Hits()["serveDNS.exit"]-x0 < k && time.Now().Before(deadline) {
+		time.Sleep(50 * time.Microsecond)
+	}
+	wit := map[string]any{"stream": hx(stream), "messages": k}
+	if got := s.ctl.Hits()["serveDNS.exit"] - x0; got != k {
+		w.Violation("C14/pipeline/messages-not-all-dealt-with/tcp", fmt.Sprintf("%d messages pipelined on one connection, %d processed", k, got), wit)
+		return
+	}
+	wantHandled := 0
+	for _, e := range exps {
+		if e.handled {
+			wantHandled++
+		}
+	}
+	if got := int(s.handled.Load() - h0); got != wantHandled {
+		w.Violation("C14/pipeline/handler-calls/tcp", fmt.Sprintf("%d of %d pipelined messages pass the policy but the handler ran %d times", wantHandled, k, got), wit)
+	}
+	raw := cl.Drain()
+	got := map[uint16][]int{}
+	for len(raw) >= 2 {
+		l := int(binary.BigEndian.Uint16(raw))
+		if 2+l > len(raw) || l < 12 {
+			w.Violation("C14/pipeline/reply-framing/tcp", "replies on the pipelined connection are not framed correctly", wit)
+			return
+		}
+		rp := raw[2 : 2+l]
+		got[binary.BigEndian.Uint16(rp)] = append(got[binary.BigEndian.Uint16(rp)], int(rp[3]&0xF))
+		raw = raw[2+l:]
+	}
+	for _, e := range exps {
+		rs := got[e.id]
+		switch {
+		case e.rcode == -1:
+			if len(rs) != 0 {
+				w.Violation("C14/pipeline/ignored-message-answered/tcp", fmt.Sprintf("message id %d (QR set) got %d replies", e.id, len(rs)), wit)
+			}
+		case len(rs) != 1:
+			w.Violation("C14/pipeline/reply-count/tcp", fmt.Sprintf("message id %d got %d replies, want 1", e.id, len(rs)), wit)
+		case e.handled && rs[0] != 0 || !e.handled && rs[0] != e.rcode:
+			w.Violation("C14/pipeline/reply-rcode/tcp", fmt.Sprintf("message id %d: rcode %d (handled expected: %v, policy rcode %d)", e.id, rs[0], e.handled, e.rcode), wit)
+		}
+		delete(got, e.id)
+	}
+	if len(got) != 0 {
+		w.Violation("C14/pipeline/unexpected-replies/tcp", fmt.Sprintf("replies with IDs that were never sent: %v", got), wit)
 	}
 }
 
@@ -654,6 +802,6 @@ func init() {
 			"oracle = reference accept policy + exactly-one-of {handler once, reject reply, ignore, invalid callback(+FORMERR)} + reply shape; routing: random pattern sets over related names (escaped dots, case variants, relative spellings, root) x query names/types against a wire-label longest-suffix reference (DS: any registered strict ancestor); " +
 			"concurrent Handle/HandleRemove/ServeDNS histories (4 threads x 8 ops) checked for linearizability with porcupine; race detector on; non-trivial = distinct packet/transport, routing case or history",
 		Assumptions: []string{"for DS queries the statement does not say which of several registered ancestors is meant: any registered strict ancestor is accepted"},
-		MinObserved: []string{"accepted_and_handled", "accepted_but_undecodable", "short_packets", "wellformed_queries", "routing_ds_cases", "routing_refused", "histories"},
+		MinObserved: []string{"accepted_and_handled", "accepted_but_undecodable", "short_packets", "wellformed_queries", "routing_ds_cases", "routing_refused", "histories", "segmented_stream_deliveries", "pipelines"},
 	})
 }
